@@ -34,6 +34,10 @@ def doc_type_cost(kind, p):
         return 4050 if p["with_keys"] else 300
     if kind == "token_update_operations":
         return 300 + sum(DOC_TOKEN[o] for o in p["ops"])
+    if kind == "update_credential_keys":
+        return 500 * p["num_existing"] + 100 * p["num_keys"]
+    if kind == "update_credentials":
+        return 500 + 500 * p["num_existing"] + sum(54000 + 100 * k for k in p["num_cred_keys"])
     raise KeyError(kind)
 
 
@@ -48,6 +52,10 @@ def coq_cost(kind, p):
         return "(cost_configure_baker %s)" % ("true" if p["with_keys"] else "false")
     if kind == "token_update_operations":
         return "(cost_token_update_operations [%s])" % "; ".join('"%s"%%string' % o for o in p["ops"])
+    if kind == "update_credential_keys":
+        return "(cost_update_credential_keys %d %d)" % (p["num_existing"], p["num_keys"])
+    if kind == "update_credentials":
+        return "(cost_update_credentials %d [%s])" % (p["num_existing"], "; ".join(str(k) for k in p["num_cred_keys"]))
     return "cost_" + kind
 
 
@@ -293,7 +301,7 @@ def run(ctx):
 
     # ---------------------------------------------------------------- 6. builders, digests, energy
     ctx.log("builders")
-    n_t = 64 if ctx.quick else 800
+    n_t = 108 if ctx.quick else 810
     rc, out = c.run_bin(binp, ["tx", ctx.seed, n_t], timeout=1800)
     if rc != 0:
         ctx.violation({"layer": "harness run", "output": out[-2000:]}, "tx harness crashed", no_input=True)
@@ -303,6 +311,14 @@ def run(ctx):
     v1tx = [d for d in res if d["k"] == "v1tx"]
     kinds = {}
     energy_fail = None
+    for d in [x for x in res if x["k"] == "tx_panic"]:
+        # a builder panicked (the harness is built with overflow checks: arithmetic that would wrap in release panics)
+        want = doc_type_cost(d["kind"], d["params"])
+        energy_fail = energy_fail or d
+        ctx.violation({"harness": "c06 tx %d %d" % (ctx.seed, n_t), "builder": "construct::" + d["kind"], "params": d["params"],
+                       "num_sigs": d["num_sigs"], "panic": d["panic"], "documented_type_cost": want,
+                       "theorem": "energy_formula / documented_type_costs"},
+                      "construct::%s panics (%s) for %s; documented type cost %d" % (d["kind"], d["panic"][:80], json.dumps(d["params"]), want))
     for d in txs:
         kinds[d["kind"]] = kinds.get(d["kind"], 0) + 1
         payload = bytes.fromhex(d["payload"])
@@ -454,7 +470,39 @@ def run(ctx):
     if rc != 0:
         ctx.violation({"layer": "harness run", "output": out[-2000:]}, "update harness crashed", no_input=True)
         return
-    upd = [json.loads(l) for l in out.splitlines() if l.startswith("{")]
+    upd_all = [json.loads(l) for l in out.splitlines() if l.startswith("{")]
+    upd = [d for d in upd_all if d["k"] == "upd"]
+    asrt = [d for d in upd_all if d["k"] == "asrt"]
+    as_dist = {"decodable": 0, "rejected_threshold": 0, "n_of_n_decodable": 0, "shapes": {}}
+    exprs = ["forallb access_structure_wf [%s]" % "; ".join("mkAS [%s] %d" % ("; ".join(str(j) for j in range(nn)), t) for nn, t in d["structs"]) for d in asrt]
+
+    def post_asrt(terms):
+        nonlocal evaluations
+        for d, t in zip(asrt, terms):
+            evaluations += 1
+            as_dist["shapes"][d["shape"]] = as_dist["shapes"].get(d["shape"], 0) + 1
+            model_ok = t == "true"
+            probs = []
+            if "panic" in d:
+                probs.append("building / reading back the update instruction panics: %s" % d["panic"][:100])
+            else:
+                if d["decode_ok"] != model_ok:
+                    probs.append("payload decodes: %s, model (1 <= threshold <= number of keys for every access structure): %s" % (d["decode_ok"], model_ok))
+                if model_ok and not d["reencode_eq"]:
+                    probs.append("decode(encode(payload)) re-encodes differently")
+                if not d["instruction_roundtrip"] or not d["payload_is_encoding"]:
+                    probs.append("UpdateInstruction does not round-trip through its serialization / payload bytes are not the payload's encoding")
+                as_dist["decodable" if d["decode_ok"] else "rejected_threshold"] += 1
+                if d["decode_ok"] and any(nn == t for nn, t in d["structs"]):
+                    as_dist["n_of_n_decodable"] += 1
+            for p in probs:
+                ctx.violation({"harness": "c06 upd %d %d" % (ctx.seed, n_u), "payload_shape": d["shape"],
+                               "access_structures_[number_of_keys,threshold]": d["structs"], "problem": p,
+                               "theorem": "access_structure_wf_iff / update_n_of_n_nonvacuous"},
+                              "key-update payload %s with access structures %s: %s" % (d["shape"], json.dumps(d["structs"])[:120], p))
+            if not probs and d.get("decode_ok"):
+                seen_nontrivial.add(c.digest(["asrt", d["shape"], d["structs"]]))
+    later(exprs, post_asrt)
     exprs = []
     for d in upd:
         acc = "(mkAS [%s] %d)" % ("; ".join(str(x) for x in d["acc"]["auth"]), d["acc"]["t"])
@@ -503,6 +551,13 @@ def run(ctx):
                     probs.append("signing with >= threshold authorised keys is not accepted by the reference rule")
             if not d["perturbed_dead"]:
                 probs.append("a signature survives a flipped byte of the update header / payload")
+            if d.get("det"):
+                nn, t, m = d["det"]
+                ud["det_cases"] = ud.get("det_cases", 0) + 1
+                if d["ref_accept"] != (m >= t):
+                    probs.append("%d of the %d authorised keys sign a threshold-%d structure: accepted=%s" % (m, nn, t, d["ref_accept"]))
+                if nn == t == m and d["ref_accept"]:
+                    ud["n_of_n_accepted"] = ud.get("n_of_n_accepted", 0) + 1
             for p in probs:
                 ctx.violation({"harness": "c06 upd %d %d" % (ctx.seed, n_u), "keys": d["keys"], "access_structure": d["acc"], "actual_keys": d["actual"],
                                "update_header": d["uh"], "payload": d["payload"], "problem": p, "theorem": "update_verify_iff_policy / update_sign_sufficient_verifies"},
@@ -518,6 +573,7 @@ def run(ctx):
         for start, cnt, fn in lazy_todo:
             fn(terms[start:start + cnt])
     ctx.notes["update_distribution"] = ud
+    ctx.notes["key_collection_roundtrips"] = as_dist
     upd_some = [d for d in upd if "sig_bits" in d]
     if upd_some:
         ctx.cov["samples"].append({k: upd_some[0][k] for k in ("field", "keys", "acc", "actual", "signer", "ref_accept")})
